@@ -49,3 +49,60 @@ func runWide(ctx context.Context, v *Variants, rec *Recorder, run *Run, engines 
 	}
 	run.Nontrivial(fmt.Sprintf("wide case %d", n))
 }
+
+// wideCheckCase: the subject is a member of n groups through "(a or b) but not c" and the objects grant
+// viewer to single groups: strategies that stream the user-side objects in batches (weight2's set
+// operations work on batches of about a hundred) must agree with the per-userset default strategy.
+func wideCheckCase(n int) (*Case, []Req) {
+	this := &Rewrite{K: "this"}
+	comp := func(r string) *Rewrite { return &Rewrite{K: "computed", Rel: r} }
+	m := &Model{Types: []string{"user", "group", "folder", "doc"}, Conds: []CondDef{}, Rels: []RelDef{
+		{T: "group", R: "a", Rw: this, Restr: []Restr{{T: "user"}}},
+		{T: "group", R: "b", Rw: this, Restr: []Restr{{T: "user"}}},
+		{T: "group", R: "c", Rw: this, Restr: []Restr{{T: "user"}}},
+		{T: "group", R: "member", Rw: &Rewrite{K: "diff", Base: &Rewrite{K: "union", Ch: []*Rewrite{comp("a"), comp("b")}}, Sub: comp("c")}, Restr: []Restr{}},
+		{T: "doc", R: "viewer", Rw: this, Restr: []Restr{{T: "group", Rel: "member"}}},
+	}}
+	cs := &Case{N: -2, Model: m}
+	u := Subj{"user", "u", ""}
+	for i := 0; i < n; i++ {
+		g := Obj{"group", fmt.Sprintf("g%03d", i)}
+		cs.Tuples = append(cs.Tuples, Tuple{O: g, R: "a", U: u, Cctx: Ctx{}})
+		if i%3 == 0 {
+			cs.Tuples[len(cs.Tuples)-1].R = "b" // a and b are disjoint: the union interleaves two streams
+		}
+		if i == 5 { // the subtract stream ends early: the rest of the base is drained in batches
+			cs.Tuples = append(cs.Tuples, Tuple{O: g, R: "c", U: u, Cctx: Ctx{}})
+		}
+	}
+	var reqs []Req
+	for name, gi := range map[string]int{"early": 0, "second": 1, "mid": n / 2, "late": n - 1, "none": 5} {
+		cs.Tuples = append(cs.Tuples, Tuple{O: Obj{"doc", name}, R: "viewer", U: Subj{"group", fmt.Sprintf("g%03d", gi), "member"}, Cctx: Ctx{}})
+		reqs = append(reqs, Req{O: Obj{"doc", name}, R: "viewer", U: u, Ctx: Ctx{}})
+	}
+	return cs, reqs
+}
+
+// runWideCheck records Check answers of the production planner and of every forced strategy over a wide case.
+func runWideCheck(ctx context.Context, v *Variants, rec *Recorder, run *Run, n int) {
+	cs, reqs := wideCheckCase(n)
+	if err := v.Base.Setup(ctx, cs.Model, cs.Tuples); err != nil {
+		run.Inconclusive("wide check case setup failed: %v", err)
+	}
+	ts, mg, err := v.Base.Typesystem(ctx, cs.Model)
+	if err != nil {
+		run.Inconclusive("typesystem: %v", err)
+	}
+	rec.Setup(cs.SetupEv())
+	for rep := 0; rep < 3; rep++ {
+		for _, q := range reqs {
+			for _, eng := range []string{"server", "v1:default", "v1:weight2", "v1:recursive"} {
+				ev := &CheckEv{Eng: eng, O: q.O, R: q.R, U: q.U, Ctx: q.Ctx}
+				v.Base.RunCheck(ctx, ev, ts, mg)
+				rec.Add(ev)
+				run.Evals++
+			}
+		}
+	}
+	run.Nontrivial(fmt.Sprintf("wide check case %d", n))
+}
